@@ -3,6 +3,7 @@ On all-concrete operands every entry is exactly the native operation."""
 from __future__ import annotations
 
 import builtins as _b
+import enum as _enum
 import types as _types
 
 import z3
@@ -32,6 +33,12 @@ def _any_sym(args, kwargs=None):
             if is_sym(a):
                 return True
     return False
+
+
+def _user_hash(x):
+    """objects whose class defines its own __hash__/__eq__ (they may hash symbolic fields): kept in a SymSet"""
+    t = _b.type(x)
+    return t.__module__.startswith("aioswitcher_sym") and ("__hash__" in t.__dict__ or "__eq__" in t.__dict__) and not isinstance(x, _enum.Enum)
 
 
 # =============================================================================== SymDict
@@ -112,7 +119,7 @@ class Dispatcher:
 
     def mkset(self, items):
         items = _b.list(items)
-        if not any(is_sym(x) for x in items):
+        if not any(is_sym(x) or _user_hash(x) for x in items):
             return _b.set(items)
         return SymSet.from_iter(items)
 
@@ -175,6 +182,11 @@ class Dispatcher:
             return recv._lift(lambda a: self.callm(a, name, args, kwargs))
         if isinstance(recv, Opaque):
             raise Unsupported("method %s on opaque %s" % (name, recv.okind))
+        if isinstance(recv, _SYMSEQ_NATIVE) and name == "join" and len(args) == 1 and not kwargs:
+            parts = _b.list(args[0])  # the argument may be any iterable (generator, reversed, map)
+            if _any_sym(parts):
+                return seq_join(recv, parts)
+            return recv.join(parts)
         if isinstance(recv, _SYMSEQ_NATIVE) and _any_sym(args, kwargs):
             if name == "format":
                 return F.str_format(recv, args, kwargs)
